@@ -56,6 +56,9 @@ Full(s) ==
     Struct(<<Fld("A", "a", TStrG), Emb("E", Struct(<<Fld("A", "a", s)>>))>>),
     Struct(<<Emb("E", Struct(<<Fld("A", "a", s)>>)), Fld("A", "a", TStrG)>>),
     Struct(<<EmbTag("E", "e", Struct(<<Fld("A", "a", s)>>))>>),
+    (* an embedded struct POINTER with a json name is an ordinary member of pointer type (null when nil) *)
+    Struct(<<EmbTag("E", "e", Ptr(Struct(<<Fld("A", "a", s)>>))), Fld("B", "b", I8)>>),
+    Struct(<<[n |-> "E", j |-> "e", oe |-> TRUE, emb |-> TRUE, t |-> Ptr(Struct(<<Fld("A", "a", s)>>))], Fld("B", "b", I8)>>),
     Struct(<<Emb("E", Struct(<<FldU("A", s)>>)), Fld("B", "b", I8)>>),
     Struct(<<Emb("E", Struct(<<Fld("A", "a", s)>>)), Emb("F", Struct(<<Fld("A", "a", TStrG)>>))>>),
     (* the "string" tag option: on the type itself, and on a pointer to it next to an omitempty one *)
@@ -66,7 +69,8 @@ Full(s) ==
    \cup (IF s.k = "named" /\ U(s).k \in BaseKinds \cup {"slice"}
          THEN {Struct(<<Emb(s.n, s), Fld("B", "b", I8)>>)} ELSE {})
    \cup (IF IsStructLike(s)
-         THEN {Struct(<<Emb("E", s), Fld("B", "b", I8)>>), Struct(<<Emb("E", Ptr(s)), Fld("B", "b", I8)>>)}
+         THEN {Struct(<<Emb("E", s), Fld("B", "b", I8)>>), Struct(<<Emb("E", Ptr(s)), Fld("B", "b", I8)>>),
+               Struct(<<EmbTag("E", "e", Ptr(s)), Fld("B", "b", I8)>>)}
          ELSE {})
 
 (* The declared types of round 6 (defined non-struct types, structs with invisible fields, the  *)
@@ -78,9 +82,11 @@ Mid(s) ==
    {Struct(<<FldOE("A", "a", s)>>),
     Struct(<<Fld("A", "a", s), Fld("B", "b", Ptr(s))>>),
     Struct(<<FldS("A", "a", s)>>),
-    Struct(<<FldS("A", "a", Ptr(s)), FldSOE("B", "b", s)>>)}
+    Struct(<<FldS("A", "a", Ptr(s)), FldSOE("B", "b", s)>>),
+    Struct(<<EmbTag("E", "e", Ptr(Struct(<<Fld("A", "a", s)>>))), Fld("B", "b", I8)>>)}
    \cup (IF IsStructLike(s)
-         THEN {Struct(<<Emb("E", s), Fld("B", "b", I8)>>), Struct(<<Emb("E", Ptr(s)), Fld("B", "b", I8)>>)}
+         THEN {Struct(<<Emb("E", s), Fld("B", "b", I8)>>), Struct(<<Emb("E", Ptr(s)), Fld("B", "b", I8)>>),
+               Struct(<<EmbTag("E", "e", Ptr(s)), Fld("B", "b", I8)>>)}
          ELSE {})
    \cup (IF s.k = "named" /\ U(s).k \in BaseKinds \cup {"slice"}
          THEN {Struct(<<Emb(s.n, s), Fld("B", "b", I8)>>)} ELSE {})
